@@ -239,11 +239,29 @@ func runSeq(run *hx.Run, seq int, ops []dbx.Op, gen func() (dbx.Op, bool), repli
 						copy(cp, done)
 						why := "the state of the replica changed while it answered queries: " + firstDiff(post.Canon(), after.Canon())
 						c03fail(run, seq, i, done, "read-changes-state", why)
-						if fmt.Sprint(after.ShardImage.ReplicasToKill) != fmt.Sprint(post.ShardImage.ReplicasToKill) {
+						sec := func(c, from, to string) string {
+							a := strings.Index(c, from)
+							b := strings.Index(c, to)
+							if a < 0 || b < a {
+								return c
+							}
+							return c[a:b]
+						}
+						pc, ac := post.Canon(), after.Canon()
+						if sec(pc, "];kill=[", "];hosts=[") != sec(ac, "];kill=[", "];hosts=[") {
 							run.Violate(hx.Violation{Property: "C11", Clause: "kill_while_reported", Signature: "kill-record-lost-by-a-read", What: why, Seq: seq, OpIndex: i, Ops: cp})
 						}
-						if fmt.Sprint(after.Requests) != fmt.Sprint(post.Requests) || fmt.Sprint(after.Outgoing) != fmt.Sprint(post.Outgoing) {
+						if sec(pc, "];Requests=[", "];info=[") != sec(ac, "];Requests=[", "];info=[") {
 							run.Violate(hx.Violation{Property: "C10", Clause: "only_addressee", Signature: "mailbox-changed-by-a-read", What: why, Seq: seq, OpIndex: i, Ops: cp})
+						}
+						if sec(pc, "defs=[", "];img=[") != sec(ac, "defs=[", "];img=[") {
+							// a shard definition or a KV record rewritten while answering a query
+							run.Violate(hx.Violation{Property: "C13", Clause: "definition_immutable", Signature: "definition-or-record-altered-by-a-read", What: why, Seq: seq, OpIndex: i, Ops: cp})
+						}
+						if sec(pc, "];img=[", "];kill=[") != sec(ac, "];img=[", "];kill=[") {
+							for _, prop := range []string{"C04", "C05"} {
+								run.Violate(hx.Violation{Property: prop, Clause: "view_moves_only_on_reports", Signature: "view-altered-by-a-read", What: why, Seq: seq, OpIndex: i, Ops: cp})
+							}
 						}
 						post = after
 					}
